@@ -1184,7 +1184,7 @@ package p9
 //@   at message.decode requires[C02,C18] @decode-sees-only-this-frame len(dataBuf.data) <= int(remaining)
 //@   at message.decode requires[C02,C18] @decodes-only-a-completely-read-body ncalls("(Buffers).ReadFrom") == 1 || remaining == 0
 //@   ensures[C02,C06] @message-iff-no-error (result2 == nil) == (result1 != nil)
-//@   ensures[C02,C17] @accepted-frame-consumes-exactly-its-declared-size result2 == nil ==> ghost("$consumed", int) == old(ghost("$consumed", int)) + int(size)
+//@   local_ensures[C02,C17] @accepted-frame-consumes-exactly-its-declared-size result2 == nil ==> ghost("$consumed", int) == old(ghost("$consumed", int)) + int(size)
 //@   ensures[C02] @tiny-or-oversized-frame-ends-connection ncalls("lookup") == 0 ==> typeis(result2, ConnError) && 0 <= ghost("$consumed", int) - old(ghost("$consumed", int)) && ghost("$consumed", int) - old(ghost("$consumed", int)) <= 7 && ncalls("io.LimitReader") == 0 && ncalls("(Buffers).ReadFrom") == 0
 //@   ensures[C02] @never-drains-twice ncalls("io.LimitReader") <= 1 && ncalls("(Buffers).ReadFrom") <= 1 && ncalls("io.LimitReader") + ncalls("(Buffers).ReadFrom") <= 1
 //@   safety[C02]
